@@ -577,15 +577,28 @@ def _evaluate(ctx, scs, res):
     mods = (jr, rawsocket, session_mod, curio)
     id_step = (ctx.facts or {}).get('id_step', 1) or 1
 
-    async def go():
+    async def go(part):
         out = []
-        for sc in scs:
+        for sc in part:
             try:
                 out.append(await run_scenario(mods, sc, id_step))
             except (vloop.Deadlock, vloop.Livelock) as e:
                 out.append({'hang': type(e).__name__})
         return out
-    obs_list = vloop.run(go())
+    # a fresh virtual loop per 50 scenarios: the loop's no-progress watchdog counts iterations
+    # without virtual-time progress, and most scenarios never let time pass
+    obs_list = []
+    for a in range(0, len(scs), 50):
+        part = scs[a:a + 50]
+        try:
+            obs_list += vloop.run(go(part))
+        except (vloop.Deadlock, vloop.Livelock) as e:
+            # outside any scenario's own await: find the scenario by running them one by one
+            for sc in part:
+                try:
+                    obs_list += vloop.run(go([sc]))
+                except (vloop.Deadlock, vloop.Livelock) as e2:
+                    obs_list.append({'hang': type(e2).__name__})
     lines, idx = [], []
     for k, (sc, obs) in enumerate(zip(scs, obs_list)):
         if 'hang' in obs:
